@@ -62,6 +62,10 @@ def configs(tier):
     tally("fast", "k2k3", [[1, 1], [1, 1], [0, 1]])
     tally("motifs", "hub2", [[1, 0], [0, 1], [0, 1]])
     tally("motifs", "tri", [[2], [1], [0]])
+    # the distribution of the SECOND call on one generator object (its first call's shuffles are held fixed)
+    for alg, motif, d in (("fast", "k2", [[1], [1], [1], [1]]), ("motifs", "bare", [[2], [1], [1]]), ("fast", "k2k3", [[1, 1], [1, 1], [0, 1]])):
+        cfgs.append({"name": f"tally-2ndcall-{alg}-{motif}-{d}", "kind": "tally", "alg": alg, "motif": motif, "N": len(d), "D": max(max(r) for r in d),
+                     "d": d, "via": "direct", "history": True, "first_identity": True})
     if not q:
         tally("fast", "k2", [[2], [2], [1], [1]]) if False else None
         tally("fast", "k2", [[1], [1], [1], [1], [0]])
@@ -218,8 +222,8 @@ def path_tally(ctx, cfg):
     # fix the sequence through the precondition, then run symbolically
     orig_sym_jds = gc.sym_jds
 
-    def fixed_jds(c, cf, spec):
-        jds = orig_sym_jds(c, cf, spec)
+    def fixed_jds(c, cf, spec, tag=""):
+        jds = orig_sym_jds(c, cf, spec, tag)
         for v, row in enumerate(jds):
             for k, x in enumerate(row):
                 c.assume(eq(x, d[v][k]))
